@@ -13,6 +13,21 @@ theorem FMap.del_other {α} (m : FMap α) {k k' : String} (h : k' ≠ k) : (m.de
 theorem gen_recordsAddOrUpdate : recordsAddOrUpdate = true := by decide
 theorem gen_addRoute : Gen.Updates.addRoute_recordsRouter = true := by decide
 theorem gen_removeAll : Gen.Updates.removeAllRoutes_recordsRouter = true := by decide
+theorem gen_setRouterStores : Gen.Updates.setRouter_storesRouter = true := by decide
+/-- `SetRouter` copies the path of the router it is given into `conf.routerConfigPath` UNCONDITIONALLY (an empty path included) -/
+theorem gen_setRouterRemembers : Gen.Updates.setRouter_rememberPath = some .always := by decide
+
+/-! ## the stored copy of a router configuration -/
+@[simp] theorem storedCfg_name (c : RouterCfg) : (storedCfg c).name = c.name := by unfold storedCfg; split <;> rfl
+@[simp] theorem storedCfg_vhosts (c : RouterCfg) : (storedCfg c).vhosts = c.vhosts := by unfold storedCfg; split <;> rfl
+@[simp] theorem storedCfg_static (c : RouterCfg) : (storedCfg c).static = c.static := by unfold storedCfg; split <;> rfl
+theorem build_congr (o : Oracle) {c c' : RouterCfg} (h : c.vhosts = c'.vhosts) : build o c = build o c' := by
+  unfold build; rw [h]
+@[simp] theorem build_storedCfg (o : Oracle) (c : RouterCfg) : build o (storedCfg c) = build o c := build_congr o (by simp)
+@[simp] theorem build_withPath (o : Oracle) (c : RouterCfg) (p : String) : build o { c with path := p } = build o c :=
+  build_congr o rfl
+theorem rememberedPath_eq (old : String) (c : RouterCfg) : rememberedPath old c = c.path := by
+  simp [rememberedPath, gen_setRouterRemembers, condHolds]
 theorem gen_updCfg : Gen.Updates.updateCluster_recordsClusterConfig = true := by decide
 theorem gen_updRefresh : Gen.Updates.updateCluster_refreshesHosts = true := by decide
 theorem gen_hostsRefresh : Gen.Updates.updateHosts_refreshesHosts = true := by decide
@@ -515,10 +530,12 @@ theorem removeHosts_eq (addrs : List String) (old : List Host) (hnd : (old.map (
 /-! ## the invariant tying the live side to the stored side -/
 
 structure Inv (o : Oracle) (s : State) : Prop where
-  r_some : ∀ n w, s.wrappers n = some w → w.cfg.name = n ∧ s.rstore n = some w.cfg ∧ w.routers = build o w.cfg
+  r_some : ∀ n w, s.wrappers n = some w → w.cfg.name = n ∧ s.rstore n = some (storedCfg w.cfg) ∧ w.routers = build o w.cfg
   r_none : ∀ n, s.wrappers n = none → s.rstore n = none
   c_some : ∀ n lc, s.clusters n = some lc → s.cstore n = some ⟨lc.tag, lc.hosts⟩ ∧ (lc.hosts.map (·.addr)).Nodup
   c_none : ∀ n, s.clusters n = none → s.cstore n = none
+  /-- the remembered path of a router is the path of the configuration its wrapper holds -/
+  r_path : ∀ n w, s.wrappers n = some w → s.rpath n = w.cfg.path
 
 theorem inv_init (o : Oracle) : Inv o init := by
   constructor <;> intros <;> simp_all [init, FMap.empty]
@@ -526,7 +543,7 @@ theorem inv_init (o : Oracle) : Inv o init := by
 /-- installing a wrapper whose tables are those built from its configuration, and recording that configuration -/
 theorem inv_setRouter {o : Oracle} {s : State} (hI : Inv o s) (cfg : RouterCfg) (t : Option Table) (ht : t = build o cfg) :
     Inv o (recordRouter true { s with wrappers := s.wrappers.set cfg.name ⟨t, cfg⟩ } cfg) := by
-  simp only [recordRouter, if_true]
+  simp only [recordRouter, if_true, gen_setRouterStores]
   constructor
   · intro n w hw
     by_cases hn : n = cfg.name
@@ -543,6 +560,15 @@ theorem inv_setRouter {o : Oracle} {s : State} (hI : Inv o s) (cfg : RouterCfg) 
       exact hI.r_none n hw
   · exact hI.c_some
   · exact hI.c_none
+  · intro n w hw
+    by_cases hn : n = cfg.name
+    · subst hn
+      simp only [FMap.set_same, Option.some.injEq] at hw
+      subst hw
+      simp [rememberedPath_eq]
+    · simp only [FMap.set_other _ _ hn] at hw
+      simp only [hn, if_false]
+      exact hI.r_path n w hw
 
 theorem refreshHosts_some (s : State) (name : String) (hosts : List Host) (c : StoredCluster) (hc : s.cstore name = some c) :
     refreshHosts true s name hosts = { s with cstore := s.cstore.set name { c with hosts := hosts } } := by
@@ -573,6 +599,7 @@ theorem inv_updateCluster {o : Oracle} {s : State} (hI : Inv o s) (name : String
     · subst hn; simp at hl
     · simp only [FMap.set_other _ _ hn] at hl ⊢
       exact hI.c_none n hl
+  · exact hI.r_path
 
 theorem inv_updateHosts {o : Oracle} {s : State} (hI : Inv o s) (name : String) (f : List Host → List Host)
     (hf : ∀ l, ((f l).map (·.addr)).Nodup) : Inv o (updateHosts s name f).1 := by
@@ -599,6 +626,7 @@ theorem inv_updateHosts {o : Oracle} {s : State} (hI : Inv o s) (name : String) 
       · subst hn; simp at hl
       · simp only [FMap.set_other _ _ hn] at hl ⊢
         exact hI.c_none n hl
+    · exact hI.r_path
 
 theorem inv_removeCluster {o : Oracle} {s : State} (hI : Inv o s) (name : String) : Inv o (removeCluster s name) := by
   unfold removeCluster
@@ -618,6 +646,7 @@ theorem inv_removeCluster {o : Oracle} {s : State} (hI : Inv o s) (name : String
       · subst hn; simp
       · simp only [FMap.del_other _ hn] at hl ⊢
         exact hI.c_none n hl
+    · exact hI.r_path
 
 theorem inv_foldl_removeCluster {o : Oracle} (names : List String) {s : State} (hI : Inv o s) :
     Inv o (names.foldl removeCluster s) := by
@@ -669,12 +698,13 @@ theorem linv_congr {s s' : State} (h1 : s'.listeners = s.listeners) (h2 : s'.lst
   · intro n h; rw [h1] at h; rw [h2]; exact hL.l_none n h
 
 theorem inv_congr {o : Oracle} {s s' : State} (h1 : s'.wrappers = s.wrappers) (h2 : s'.rstore = s.rstore)
-    (h3 : s'.clusters = s.clusters) (h4 : s'.cstore = s.cstore) (hI : Inv o s) : Inv o s' := by
+    (h3 : s'.clusters = s.clusters) (h4 : s'.cstore = s.cstore) (h5 : s'.rpath = s.rpath) (hI : Inv o s) : Inv o s' := by
   constructor
   · intro n w h; rw [h1] at h; rw [h2]; exact hI.r_some n w h
   · intro n h; rw [h1] at h; rw [h2]; exact hI.r_none n h
   · intro n lc h; rw [h3] at h; rw [h4]; exact hI.c_some n lc h
   · intro n h; rw [h3] at h; rw [h4]; exact hI.c_none n h
+  · intro n w h; rw [h1] at h; rw [h5]; exact hI.r_path n w h
 
 /-- what `AddOrUpdateListener` does, case by case (with the regenerated facts plugged in). -/
 theorem addOrUpdateListener_cases (s : State) (lc0 : ListenerCfg) :
@@ -769,9 +799,10 @@ theorem linv_addOrUpdateListener {s : State} (hL : LInv s) (lc0 : ListenerCfg) :
 
 theorem addOrUpdateListener_others (s : State) (lc0 : ListenerCfg) :
     (addOrUpdateListener s lc0).1.wrappers = s.wrappers ∧ (addOrUpdateListener s lc0).1.rstore = s.rstore ∧
-    (addOrUpdateListener s lc0).1.clusters = s.clusters ∧ (addOrUpdateListener s lc0).1.cstore = s.cstore := by
+    (addOrUpdateListener s lc0).1.clusters = s.clusters ∧ (addOrUpdateListener s lc0).1.cstore = s.cstore ∧
+    (addOrUpdateListener s lc0).1.rpath = s.rpath := by
   rcases addOrUpdateListener_cases s lc0 with ⟨_, h⟩ | ⟨al, _, _, _, h⟩ | ⟨al, _, _, _, _, h⟩ | ⟨_, _, _, h⟩ | ⟨_, _, _, h⟩ <;>
-    rw [h] <;> exact ⟨rfl, rfl, rfl, rfl⟩
+    rw [h] <;> exact ⟨rfl, rfl, rfl, rfl, rfl⟩
 
 theorem deleteListener_eq (s : State) (name : String) :
     (s.listeners name = none ∧ deleteListener s name = (s, true)) ∨
@@ -800,8 +831,9 @@ theorem linv_deleteListener {s : State} (hL : LInv s) (name : String) : LInv (de
 
 theorem deleteListener_others (s : State) (name : String) :
     (deleteListener s name).1.wrappers = s.wrappers ∧ (deleteListener s name).1.rstore = s.rstore ∧
-    (deleteListener s name).1.clusters = s.clusters ∧ (deleteListener s name).1.cstore = s.cstore := by
-  rcases deleteListener_eq s name with ⟨_, h⟩ | ⟨al, _, h⟩ <;> rw [h] <;> exact ⟨rfl, rfl, rfl, rfl⟩
+    (deleteListener s name).1.clusters = s.clusters ∧ (deleteListener s name).1.cstore = s.cstore ∧
+    (deleteListener s name).1.rpath = s.rpath := by
+  rcases deleteListener_eq s name with ⟨_, h⟩ | ⟨al, _, h⟩ <;> rw [h] <;> exact ⟨rfl, rfl, rfl, rfl, rfl⟩
 
 /-- every operation preserves the invariant (successful, failed, repeated or no-op alike). -/
 theorem inv_step {o : Oracle} {s : State} (hI : Inv o s) (op : Op) : Inv o (step o s op).1 := by
@@ -875,11 +907,11 @@ theorem inv_step {o : Oracle} {s : State} (hI : Inv o s) (op : Op) : Inv o (step
     simp only [step]
     exact inv_foldl_xds assignments hI
   | addOrUpdateListener lc =>
-    obtain ⟨h1, h2, h3, h4⟩ := addOrUpdateListener_others s lc
-    exact inv_congr h1 h2 h3 h4 hI
+    obtain ⟨h1, h2, h3, h4, h5⟩ := addOrUpdateListener_others s lc
+    exact inv_congr h1 h2 h3 h4 h5 hI
   | deleteListener n =>
-    obtain ⟨h1, h2, h3, h4⟩ := deleteListener_others s n
-    exact inv_congr h1 h2 h3 h4 hI
+    obtain ⟨h1, h2, h3, h4, h5⟩ := deleteListener_others s n
+    exact inv_congr h1 h2 h3 h4 h5 hI
 
 theorem inv_runFrom {o : Oracle} (ops : List Op) {s : State} (hI : Inv o s) : Inv o (runFrom o s ops) := by
   induction ops generalizing s with
@@ -1370,7 +1402,7 @@ theorem spec_coherent_on_model (o : Oracle) (ops : List Op) (rnames cnames lname
   have hR : liveRouters (run o ops) = rebuildRouters o (dump (run o ops)) := by
     funext n
     have hI := inv_run o ops
-    simp only [liveRouters, rebuildRouters, dump]
+    simp only [liveRouters, rebuildRouters, dump, dumpRouter]
     cases hw : (run o ops).wrappers n with
     | none => simp [hI.r_none n hw]
     | some w =>
